@@ -95,7 +95,9 @@ SPECS = {
         "rule": "restart steps through the dict form (to_dict_list -> optional JSON dump/load -> "
                 "from_dict -> continue) inside seeded histories of untyped trees; the structure "
                 "must mirror the model and the rebuilt tree must equal the model projected "
-                "(shape, order, data, custom ids, clone partition).",
+                "(shape, order, data, custom ids, clone partition). Mapper pairs: in place / new "
+                "dict styles, and a pair that keeps the id under its own key and hands it back "
+                "by setting item['data_id'].",
         "probes": ["restart_dict"],
         "assumptions": ASSUME_COMMON,
         "cfg_overrides": {"restart_via": "dict"},
@@ -108,6 +110,9 @@ SPECS = {
                 "with a simulator-owned callback that returns or raises a skip/stop signal in "
                 "every documented spelling at chosen nodes (callback sequence, nothing after "
                 "stop, carried value); RANDOM_ORDER with the PRNG bound to a seeded SimRandom. "
+                "Extra block DeepSim (coverage.deep): the non-recursive traversals (level-order "
+                "family, visit(LEVEL_ORDER) with skip/stop, UNORDERED) on seeded spines of up to "
+                "recursion limit + 700 levels against an iterative model. "
                 "Non-trivial: >= 3 successful mutations and a traversal probe fired.",
         "probes": ["visit_skip", "visit_stop", "iter_zigzag", "iter_random", "deep_beyond_limit"],
         "assumptions": ASSUME_COMMON,
